@@ -69,7 +69,17 @@ func (t *tracer) handler(i int) app.HandlerFunc {
 			ctx.Next(c)
 			t.ev = append(t.ev, fmt.Sprintf("B%d", i))
 		case 6:
-			ctx.AbortWithStatus(403)
+			// every Abort variant must stop the chain the same way
+			switch i % 4 {
+			case 0:
+				ctx.AbortWithStatus(403)
+			case 1:
+				ctx.AbortWithMsg("stop", 403)
+			case 2:
+				ctx.AbortWithError(403, fmt.Errorf("stop")) //nolint:errcheck
+			default:
+				ctx.AbortWithStatusJSON(403, map[string]string{"e": "stop"})
+			}
 		}
 		t.ev = append(t.ev, fmt.Sprintf("X%d", i))
 	}
@@ -268,6 +278,54 @@ func chains(w *mon.W) {
 			}
 		})
 	}
+}
+
+// longChains: chains near the maximum length registration accepts (62 handlers), seeded
+// programs, seeded splits over engine.Use / group.Use / route: the index arithmetic of
+// Next and the abort marker (63) meet there.
+func longChains(w *mon.W) {
+	w.Cases("chains-long", uint64(w.Pick(400, 20000)), func(c *mon.Case) {
+		r := c.R
+		L := r.Int(30, 60, 61, 62)
+		a := r.Intn(L)
+		b := a + r.Intn(L-a)
+		ce := buildChain(L, a, b)
+		prog := make([]int, L)
+		for i := range prog {
+			prog[i] = r.Int(1, 1, 1, 1, 1, 0, 2, 3, 4, 5, 6)
+			if i > L-4 {
+				prog[i] = r.Intn(7)
+			}
+		}
+		if r.Bool() { // mostly pass-through so that the tail is reached
+			for i := 0; i < L-3; i++ {
+				prog[i] = 1
+			}
+		}
+		ce.t.prog = prog
+		ctx := ce.e.NewContext()
+		ctx.Request.SetRequestURI("/g/r")
+		ctx.Request.Header.SetMethod("GET")
+		ctx.Request.SetHost("h")
+		c.Detail = func() interface{} {
+			return map[string]interface{}{"program": prog, "engine_use": a, "group_use": b - a, "route_handlers": L - b}
+		}
+		if pv, st := mon.Guard(func() { ce.e.ServeHTTP(context.Background(), ctx) }); pv != nil {
+			c.Violate(mon.PanicKey(st), "chain of %d handlers %v (0 return, 1 Next, 2 Abort, 3 Next+Abort, 4 Abort+Next, 5 Next twice, 6 AbortWith*): panic: %v", L, prog, pv)
+			return
+		}
+		w.Count("long_chain_executions", 1)
+		want := ref(prog)
+		if msg := checkTrace(ce.t.ev, prog); msg != "" {
+			c.Violate("onion-order", "chain of %d handlers %v: %s", L, prog, msg)
+			return
+		}
+		if strings.Join(ce.t.ev, " ") != strings.Join(want, " ") {
+			c.Violate("chain-trace", "chain of %d handlers %v (split %d/%d): trace %v, reference interpreter %v", L, prog, a, b-a, ce.t.ev, want)
+			return
+		}
+		w.Shape(mon.Hash64("long", fmt.Sprint(prog), a, b))
+	})
 }
 
 // ---- groups ----------------------------------------------------------------------
@@ -532,6 +590,7 @@ func groups(w *mon.W) {
 }
 
 func work(w *mon.W) {
+	longChains(w)
 	chains(w)
 	groups(w)
 }
